@@ -245,6 +245,21 @@ func genC18(r *Rng, salt int) c18In {
 	}
 	sortEntries(down)
 	in.Down = down
+	// not modelled: an upstream path that names a FILE of some upstream tree (git resolves it to a
+	// blob and the propagation quietly does nothing); such directives propagate the whole tree instead
+	for di := range in.Dirs {
+		up := strings.TrimSuffix(string(i2b(in.Dirs[di].UpPath)), "/")
+		if up == "" {
+			continue
+		}
+		for _, tr := range in.UpTrees {
+			for _, e := range tr {
+				if string(e.path()) == up {
+					in.Dirs[di].UpPath = []int{}
+				}
+			}
+		}
+	}
 	return in
 }
 
